@@ -1,6 +1,7 @@
 import GoCrypt.Props.C02
 import GoCrypt.Props.C10
 import GoCrypt.Props.C14
+import GoCrypt.Props.Accept
 
 /-!
 # C06 — verification classifies every string as match, mismatch or malformed correctly
@@ -59,5 +60,27 @@ theorem params_iff_unmarshal (S : Def) (ti : TypeInfo) (h : Bytes) (hti : tiOf S
 #print axioms GoCrypt.C14.guards_iff_accepts_sha256
 #print axioms GoCrypt.C14.guards_iff_accepts_bcrypt
 #print axioms GoCrypt.C14.guards_iff_accepts_argon2
+-- the accepted language: Unmarshal accepts exactly the strings of an independently written recogniser of the
+-- documented layout (Spec/Grammar.lean), and returns exactly the fields the recogniser reads
+#print axioms GoCrypt.Accept.unmarshal_eq_grammar_md5
+#print axioms GoCrypt.Accept.unmarshal_iff_grammar_md5
+#print axioms GoCrypt.Accept.unmarshal_eq_grammar_sha1
+#print axioms GoCrypt.Accept.unmarshal_iff_grammar_sha1
+#print axioms GoCrypt.Accept.unmarshal_eq_grammar_sha256
+#print axioms GoCrypt.Accept.unmarshal_iff_grammar_sha256
+#print axioms GoCrypt.Accept.unmarshal_eq_grammar_sha512
+#print axioms GoCrypt.Accept.unmarshal_iff_grammar_sha512
+#print axioms GoCrypt.Accept.unmarshal_eq_grammar_nthash
+#print axioms GoCrypt.Accept.unmarshal_iff_grammar_nthash
+#print axioms GoCrypt.Accept.unmarshal_eq_grammar_des
+#print axioms GoCrypt.Accept.unmarshal_iff_grammar_des
+#print axioms GoCrypt.Accept.unmarshal_eq_grammar_desext
+#print axioms GoCrypt.Accept.unmarshal_iff_grammar_desext
+#print axioms GoCrypt.Accept.unmarshal_eq_grammar_bcrypt
+#print axioms GoCrypt.Accept.unmarshal_iff_grammar_bcrypt
+#print axioms GoCrypt.Accept.unmarshal_eq_grammar_sunmd5
+#print axioms GoCrypt.Accept.unmarshal_iff_grammar_sunmd5
+#print axioms GoCrypt.Accept.unmarshal_eq_grammar_argon2
+#print axioms GoCrypt.Accept.unmarshal_iff_grammar_argon2
 
 end GoCrypt.C06
